@@ -159,7 +159,7 @@ type FieldKV struct {
 }
 
 type Op struct {
-	K    string // key dict array object embed fields anerr err errs stack func timestamp mark discard | aelem aobj adict aerr
+	K    string // key dict array object embed fields anerr err errs stack func timestamp mark discard log | aelem aobj adict aerr
 	Key  []byte
 	P    *Prim
 	Sub  []Op
@@ -170,6 +170,7 @@ type Op struct {
 	Es   []*ErrV
 	ID   uint64
 	When time.Time
+	N    *Nested // log: another event started (and usually finished) at this point, see nested.go
 }
 
 // Marks is the global trace written by OMark (hooks / marshalers noting that they ran)
@@ -391,6 +392,8 @@ func ApplyEvent(e *zerolog.Event, ops []Op) *zerolog.Event {
 			}
 		case "discard":
 			e.Discard()
+		case "log":
+			runNested(o.N)
 		default:
 			panic("ApplyEvent: " + o.K)
 		}
@@ -678,10 +681,16 @@ func (o *Op) Coq(s Settings) string {
 	panic("Op.Coq " + o.K)
 }
 
+// OpsCoq: a "log" op (another event started on another logger while this one is being built, nested.go) is no call on
+// this event and is not printed: the model's claim for it is that this event is what it would be without it; the
+// other event is a model case of its own.
 func OpsCoq(ops []Op, s Settings) string {
-	xs := make([]string, len(ops))
+	xs := make([]string, 0, len(ops))
 	for i := range ops {
-		xs[i] = ops[i].Coq(s)
+		if ops[i].K == "log" {
+			continue
+		}
+		xs = append(xs, ops[i].Coq(s))
 	}
 	return CoqList(xs)
 }
@@ -770,6 +779,14 @@ func DescribeOps(ops []Op) []interface{} {
 		}
 		if o.K == "mark" {
 			d["id"] = o.ID
+		}
+		if o.K == "log" && o.N != nil {
+			d["another_event_on_another_logger_and_writer"] = o.N.In.Describe()
+			if o.N.Late {
+				d["finalized"] = "after this event's finalizer has returned"
+			} else {
+				d["finalized"] = "at once, before the next call on this event"
+			}
 		}
 		if len(o.KVs) > 0 {
 			var ks []string
